@@ -1,7 +1,7 @@
 //! xp-total / xp-worker (C06): every expression is run through `xml_xpath::query` in a CHILD PROCESS
 //! (this binary re-executed with the sub-command `xp-worker`), so that a panic, an abort (stack overflow,
 //! signal) or a hang of the code under test is observed as data:
-//!     outcome = ok | err | panic | abort | timeout      (+ wall-clock milliseconds of the call)
+//!     outcome = ok | err | panic | abort | timeout      (+ CPU milliseconds of the call)
 //!
 //!   xp-total --in CASES --trace OUT --stats OUT [--garbage N --seed S] [--sample K] [--workers W]
 //!       CASES: `call` lines printed by MC_XPathCost (hostile families, named constructs) and, optionally,
@@ -22,7 +22,23 @@ use std::sync::mpsc::{channel, Receiver, RecvTimeoutError};
 use std::time::{Duration, Instant};
 use xml_xpath::eval::model::{Context, Value};
 
-const LIMIT: Duration = Duration::from_secs(5);
+/// wall-clock limit of one call (a hang or runaway computation); the polynomial bound of the hostile
+/// families is applied to the CPU time of the call, which does not depend on the load of the machine
+const LIMIT: Duration = Duration::from_secs(15);
+
+/// CPU time (user + system) of this process in milliseconds (/proc/self/stat, 100 Hz ticks)
+fn cpu_ms() -> u64 {
+    std::fs::read_to_string("/proc/self/stat")
+        .ok()
+        .and_then(|s| {
+            let rest = s.rsplit_once(") ")?.1.to_string();
+            let f: Vec<&str> = rest.split(' ').collect();
+            let ut: u64 = f.get(11)?.parse().ok()?;
+            let st: u64 = f.get(12)?.parse().ok()?;
+            Some((ut + st) * 10)
+        })
+        .unwrap_or(0)
+}
 
 // ------------------------------------------------------------------------------------------------
 // worker (child process)
@@ -49,6 +65,7 @@ pub fn worker(_args: &[String]) -> i32 {
             Err(e) => json!({"o": "doc", "detail": e}),
             Ok(dom) => {
                 let t0 = Instant::now();
+                let c0 = cpu_ms();
                 let r = guarded(|| {
                     let mut ctx = Context::default();
                     match xml_xpath::query(dom.clone(), &expr, &mut ctx) {
@@ -59,7 +76,9 @@ pub fn worker(_args: &[String]) -> i32 {
                         Err(e) => ("err", false, e.to_string().chars().take(80).collect()),
                     }
                 });
-                let ms = t0.elapsed().as_millis() as u64;
+                let wall = t0.elapsed().as_millis() as u64;
+                // CPU time has a 10 ms resolution; never report more than the wall-clock time
+                let ms = (cpu_ms() - c0).min(wall);
                 match r {
                     Ok((o, empty, detail)) => json!({"o": o, "empty": empty, "detail": detail, "ms": ms}),
                     Err(p) => json!({"o": "panic", "empty": false, "detail": p.chars().take(120).collect::<String>(), "ms": ms}),
@@ -123,7 +142,7 @@ fn call(p: &mut Proc, doc: &str, expr: &str) -> J {
             let _ = p.child.kill();
             let _ = p.child.wait();
             *p = spawn();
-            json!({"o": "timeout", "empty": false, "detail": "no answer within 5 s", "ms": t0.elapsed().as_millis() as u64})
+            json!({"o": "timeout", "empty": false, "detail": "no answer within 15 s", "ms": t0.elapsed().as_millis() as u64})
         }
         Err(RecvTimeoutError::Disconnected) => {
             let status = p.child.wait().ok();
